@@ -17,7 +17,7 @@ def machine_cfg(kind, n, m, depth, mode, ops_def, mant=53, nr=2, props=True, loa
         plist = list(props)
     else:
         plist = ["ReTransparent", "AbsentIsZero"] if props else []
-    return cfg(constants={"Kind": kind, "N": n, "M": m, "NR": nr, "Depth": depth, "Mode": mode, "Mant": mant},
+    return cfg(spec=("SpecSim" if mode == "sim" else "Spec"), constants={"Kind": kind, "N": n, "M": m, "NR": nr, "Depth": depth, "Mode": mode, "Mant": mant},
                overrides={"LoadSet": loadset, "ReGrid": "ReGridSmall", "PartGrid": "PartGridSmall",
                           "ScalarGrid": "ScalarGridSmall", "PowSet": "PowSetSmall", "OpFilter": ops_def},
                invariants=["Emit"], properties=plist,
